@@ -45,7 +45,11 @@ func runHostWorld(c *Ctx, spec *HostSpec, sched *SchedConfig) ([]hostResult, *Re
 		return nil, nil, infraf("world config: %v", err)
 	}
 	cmd := exec.Command(c.sc.SimCLI)
-	cmd.Env = append(os.Environ(), "VERIF_HOST="+specPath, "VERIF_WORLD="+cfgPath, "GOMAXPROCS=4")
+	procs := 4
+	if sp.Procs > 0 {
+		procs = sp.Procs
+	}
+	cmd.Env = append(os.Environ(), "VERIF_HOST="+specPath, "VERIF_WORLD="+cfgPath, fmt.Sprintf("GOMAXPROCS=%d", procs))
 	cmd.Dir = dir
 	var se bytes.Buffer
 	cmd.Stderr = &se
@@ -130,6 +134,9 @@ func c16HostPreempt(c *Ctx, pool *Pool, i int) error {
 		return nil
 	}
 	spec := &HostSpec{Threads: threads, Preempt: true}
+	if i%3 == 0 {
+		spec.Procs = 1 // one processor: per-P caches (sync.Pool) are shared by all host threads
+	}
 	for k := 0; k < ncalls; k++ {
 		spec.Calls = append(spec.Calls, HostCall{Thread: k % threads, Input: inputs[r.Intn(len(inputs))]})
 	}
@@ -202,10 +209,15 @@ func (c *Ctx) candidate16Preempt(caseIdx int, spec *HostSpec, sched *SchedConfig
 	cur.UseReplay = true
 	cur.Replay = append([]Choice(nil), rec.Choices...)
 	calls := append([]HostCall(nil), spec.Calls...)
-	mk := func(cs []HostCall) *HostSpec { return &HostSpec{Threads: spec.Threads, Calls: cs, Preempt: true} }
+	mk := func(cs []HostCall) *HostSpec {
+		return &HostSpec{Threads: spec.Threads, Calls: cs, Preempt: true, Procs: spec.Procs}
+	}
 	if kk, _, _ := preemptFails(c, mk(calls), &cur, v.class); kk < 0 {
 		c.ev.Count("unconfirmed_candidates", 1)
 		c.logf("preemptive host candidate (world %d, call %d, %s) did not replay from its choice log: not reported", caseIdx, k, v.class)
+		c.mu.Lock()
+		delete(c.sigSeen, "coarse:"+coarse)
+		c.mu.Unlock()
 		return
 	}
 	origCalls, origChoices := len(calls), len(cur.Replay)
